@@ -307,6 +307,17 @@ func c19Exec(ps []c19Param, src string) (accepted bool, loadErr string, obs []st
 	if strings.Join(got, ";") != strings.Join(first, ";") {
 		return true, "", first, fmt.Sprintf("second run of the loaded script binds %v, the first run bound %v", got, first)
 	}
+	// cancellation at every poll of the run: the callee either does not run or receives the same bindings
+	count := &drv.Sig{}
+	got = nil
+	_ = sc.Run(count)
+	for k := 1; k <= count.N && k <= 12; k++ {
+		got = nil
+		_ = sc.Run(&drv.Sig{FireAt: k})
+		if len(got) > 0 && strings.Join(got, ";") != strings.Join(first, ";") {
+			return true, "", first, fmt.Sprintf("with the exit signal true from poll %d on, the callee ran and received %v instead of %v", k, got, first)
+		}
+	}
 	// the script loaded BEFORE this one (same or another text, another parameter list) still binds what it bound
 	if c19Prev != nil {
 		if msg := c19Prev(); msg != "" {
